@@ -49,6 +49,14 @@ def class_of_base(b):
     return b[:-4] if b.endswith('Base') else b
 
 
+# parameters that are alternatives of one variant: setting one must clear the others
+EXCLUSIVE = {
+    'AudioContent': ['NonDialogueContentKind', 'DialogueContentKind', 'MixedContentKind'],
+    'AudioBlockFormatObjects': ['SphericalPosition', 'CartesianPosition'],
+    'AudioBlockFormatDirectSpeakers': ['SphericalSpeakerPosition', 'CartesianSpeakerPosition'],
+    'AudioObject': ['SphericalPositionOffset', 'CartesianPositionOffset'],
+}
+
 TEMPLATE_CAPS = {'Required': 'gsh', 'Optional': 'gshdu', 'Default': 'gshdu', 'Vector': 'gshdu'}
 # parameters the random fill must not touch (they tie an element to its ID / to the kind of its content)
 NO_FILL = {'TypeDescriptor', 'FormatDescriptor_', 'TransportId', 'FrameFormatId', 'TrackId'}
@@ -135,6 +143,15 @@ def generate(repo, outpath):
         if c in classes:
             L.append('  probe<%s>(out, "%s", "%s", "%s", make_%s, [](const %s& c) { return others_%s(c, "%s"); });'
                      % (targs(c, p), c, p, kinds[(c, p)], c, c, c, p))
+    ncross = 0
+    for c, alts in EXCLUSIVE.items():
+        if c not in classes:
+            continue
+        for a in alts:
+            for b in alts:
+                if a != b:
+                    L.append('  cross<%s, %s, %s>(out, "%s", "%s", "%s", make_%s);' % (c, a, b, c, a, b, c))
+                    ncross += 1
     for c in skipped:
         L.append('  out << "acc-skipped %s\\n";' % c)
     L += ['}', '}  // namespace', '']
@@ -142,7 +159,7 @@ def generate(repo, outpath):
         old = open(path).read() if os.path.exists(path) else None
         if old != text:
             open(path, 'w').write(text)
-    return dict(pairs=len([1 for c, p in pairs if c in classes]), classes=len(classes), skipped=skipped)
+    return dict(pairs=len([1 for c, p in pairs if c in classes]), classes=len(classes), skipped=skipped, cross_probes=ncross)
 
 
 if __name__ == '__main__':
